@@ -1,7 +1,150 @@
 import ComposeVerif.Ops.Common
-/-! line-protocol ops for C10 (filled in by the property's owner) -/
+import ComposeVerif.Model.Consistency
+import ComposeVerif.Spec.Consistency
+import ComposeVerif.Model.Validate
+/-! line-protocol ops for C10:
+`c10.consistency` (model of `loader.checkConsistency` + outcomes over all iteration orders + spec decision),
+`c10.cycleBatch` (model of `graph.CheckCycle` over a range of digraphs),
+`c10.consistent` (the `Consistent` decision procedure on an abstracted project),
+`c10.validate` (model of `validation.Validate`). -/
+open Lean
 namespace CV.Ops.C10
+open CV.Consistency
 
-def handlers : List (String × Handler) := []
+def getInt (j : Json) (k : String) : Int :=
+  match j.getObjValAs? Int k with
+  | .ok n => n
+  | .error _ => 0
+
+def getOptInt (j : Json) (k : String) : Option Int :=
+  match j.getObjVal? k with
+  | .ok .null => none
+  | .ok v => match v.getInt? with
+    | .ok n => some n
+    | .error _ => none
+  | .error _ => none
+
+def getArr (j : Json) (k : String) : List Json :=
+  match j.getObjVal? k with
+  | .ok (.arr a) => a.toList
+  | _ => []
+
+def getPairs (j : Json) (k : String) : List (String × String) :=
+  (getArr j k).filterMap fun e => match e with
+    | .arr #[.str a, .str b] => some (a, b)
+    | _ => none
+
+def getOpt {α : Type} (j : Json) (k : String) (f : Json → α) : Option α :=
+  match j.getObjVal? k with
+  | .ok .null => none
+  | .ok v => some (f v)
+  | .error _ => none
+
+def buildOfJson (j : Json) : Build :=
+  { dockerfile := getStr j "dockerfile", inline := getStr j "inline",
+    platforms := getStrList j "platforms", secrets := getStrList j "secrets" }
+
+def limitsOfJson (j : Json) : Limits :=
+  { cpus := getStr j "cpus", mem := getInt j "mem", pids := getInt j "pids" }
+
+def deployOfJson (j : Json) : Deploy :=
+  { replicas := getOptInt j "replicas", limits := getOpt j "limits" limitsOfJson, reservationsMem := getOptInt j "res_mem" }
+
+def svcOfJson (j : Json) : String × Svc :=
+  (getStr j "name",
+   { image := getStr j "image", build := getOpt j "build" buildOfJson, platform := getStr j "platform",
+     networkMode := getStr j "network_mode", networks := getStrList j "networks",
+     hc := getOpt j "hc" (fun v => match v with | .arr a => a.toList.filterMap (fun x => x.getStr?.toOption) | _ => []),
+     dependsOn := (getArr j "depends_on").map (fun d => (getStr d "name", getBool d "required")),
+     volumes := getPairs j "volumes", configs := getStrList j "configs", secrets := getStrList j "secrets",
+     scale := getOptInt j "scale", deploy := getOpt j "deploy" deployOfJson, cpus := getStr j "cpus",
+     memLimit := getInt j "mem_limit", memReservation := getInt j "mem_reservation", pidsLimit := getInt j "pids_limit",
+     containerName := getStr j "container_name", watch := getPairs j "watch" })
+
+def projOfJson (j : Json) : Proj :=
+  { services := (getArr j "services").map svcOfJson, disabled := getStrList j "disabled",
+    networks := getStrList j "networks", volumes := getStrList j "volumes",
+    secrets := (getArr j "secrets").map (fun s => (getStr s "name",
+      { external := getBool s "external", file := getStr s "file", environment := getStr s "environment" })),
+    configs := getStrList j "configs" }
+
+def optIntJson : Option Int → Json
+  | none => Json.null
+  | some i => Json.num (JsonNumber.fromInt i)
+
+/-- digest of the post state: per service `[name, deploy.replicas, sorted depends_on names]` -/
+def postJson (p : Proj) : Json :=
+  Json.arr ((postState p).services.map fun e =>
+    let reps := match e.2.deploy with | some d => optIntJson d.replicas | none => Json.null
+    let deps := (e.2.dependsOn.map Prod.fst).toArray.qsort (· < ·)
+    Json.arr #[Json.str e.1, reps, Json.arr (deps.map Json.str)]).toArray
+
+def outJson (p : Proj) : Option Err → Json
+  | none => Json.mkObj [("ok", postJson p)]
+  | some e => Json.mkObj [("err", Json.str e.name)]
+
+def altsJson (p : Proj) (l : List (Option Err)) : Json := Json.arr (l.map (outJson p)).toArray
+
+/-- model outcome (list order = sorted order on the wire), every outcome reachable under some
+iteration order, and the verdict of the *specification* -/
+def consistency : Handler := fun args =>
+  let p := projOfJson (getObj args "proj")
+  Json.mkObj [("out", outJson p (checkConsistency p)),
+              ("alts", altsJson p (consistencyAlts p)),
+              ("consistent", Json.bool (consistentB p)),
+              ("broken", Json.arr ((brokenRules p).map Json.str).toArray),
+              ("ambiguous", Json.bool (ambiguousSelfDep p))]
+
+/-- `graph.CheckCycle` alone -/
+def cycle : Handler := fun args =>
+  let p := projOfJson (getObj args "proj")
+  Json.mkObj [("out", outJson p (checkCycleProj p)), ("alts", altsJson p (cycleAlts p)),
+              ("acyclic", Json.bool (acyclicB p))]
+
+/-- the decision procedure of `Consistent` on the abstraction of a project returned by a load -/
+def consistent : Handler := fun args =>
+  let p := projOfJson (getObj args "proj")
+  Json.mkObj [("consistent", Json.bool (consistentB p)), ("broken", Json.arr ((brokenRules p).map Json.str).toArray),
+              ("model", outJson p (checkConsistency p))]
+
+/-- digraph number `k` on `n` vertices `s0…`: bit `i*n+j` = edge `si → sj` (with self loops), or, without
+self loops, bit index over the off-diagonal pairs in row-major order -/
+def graphProj (n : Nat) (loops : Bool) (k : Nat) : Proj :=
+  let pairs : List (Nat × Nat) := (List.range n).flatMap fun i => (List.range n).filterMap fun j =>
+    if loops || i != j then some (i, j) else none
+  let bits : List ((Nat × Nat) × Nat) := pairs.zipIdx
+  let svc (i : Nat) : Svc :=
+    { image := "i", dependsOn := bits.filterMap fun (ij, b) =>
+        if ij.1 == i && k.testBit b then some ("s" ++ Nat.repr ij.2, true) else none }
+  { services := (List.range n).map fun i => ("s" ++ Nat.repr i, svc i) }
+
+def cycleBatch : Handler := fun args =>
+  let n := getNat args "n"
+  let loops := getBool args "loops"
+  let from_ := getNat args "from"
+  let count := getNat args "count"
+  let s := (List.range count).map fun d =>
+    match checkCycleProj (graphProj n loops (from_ + d)) with
+    | none => '0'
+    | some .cycle => '1'
+    | some _ => 'e'
+  Json.mkObj [("bits", Json.str (String.ofList s))]
+
+def voutJson : CV.Validate.VOut → Json
+  | .ok => Json.mkObj [("ok", Json.null)]
+  | .err c => Json.mkObj [("err", Json.str c.name)]
+  | .panic s => Json.mkObj [("panic", Json.str s)]
+
+def validateOp : Handler := fun args =>
+  match CV.Val.ofJson (getObj args "tree") with
+  | .error e => Json.mkObj [("bad", e)]
+  | .ok t =>
+    Json.mkObj [("out", voutJson (CV.Validate.validate t)),
+                ("alts", Json.arr (((CV.Validate.failures t).map voutJson).toArray)),
+                ("valid", Json.bool (CV.Validate.validTreeB t))]
+
+def handlers : List (String × Handler) :=
+  [("c10.consistency", consistency), ("c10.cycle", cycle), ("c10.consistent", consistent),
+   ("c10.cycleBatch", cycleBatch), ("c10.validate", validateOp)]
 
 end CV.Ops.C10
